@@ -661,3 +661,44 @@ def s_box_into_vec(ip, st, fr, name, args, c, site):
     if isinstance(v, X.Tup):
         return one(X.ListV([('one', ip.to_term(st, x)) for x in v.xs]))
     raise X.Unanalysable('vec! of %r' % (v,), site)
+
+
+@S('core::str::<impl str>::chars')
+def s_chars(ip, st, fr, name, args, c, site):
+    v = deref_all(ip, st, args[0])
+    t = ('chars', ip.to_term(st, v))
+    seqv = X.Sym(t, '[char]')
+    return one(X.Iter(ref_to(seqv), I(0), T.typed(('len', t), 'usize'), ('owned',)))
+
+
+@S("<std::str::Chars<'a> as std::iter::Iterator>::next")
+def s_chars_next(ip, st, fr, name, args, c, site):
+    return s_next(ip, st, fr, name, args, c, site)
+
+
+@S('std::iter::Iterator::collect')
+def s_collect(ip, st, fr, name, args, c, site):
+    it = args[0]
+    if not isinstance(it, X.Iter):
+        raise X.Unanalysable('collect of %r' % (it,), site)
+    if 'rev' in it.kind or 'filter' in it.kind or 'enumerate' in it.kind:
+        raise X.Unanalysable('collect after %r' % (it.kind,), site)
+    rty = c['generics'][1] if len(c.get('generics', [])) > 1 else 'std::vec::Vec<?>'
+    dom = iter_domain(ip, st, it)
+    n = T.mk_sub(it.end, it.pos)
+    if 'map' in it.kind:
+        base_it = X.Iter(it.base, it.pos, it.end, tuple(k for k in it.kind if k != 'map'), it.extra)
+        bound = st.fresh_var('k', 'usize')
+        elem = iter_elem(ip, st, base_it, T.mk_add(it.pos, bound))
+        body = elem
+        for clo in it.fns:
+            body = ip.eval_closure(st, clo, [body], site)
+            if not isinstance(body, tuple):
+                raise X.Unanalysable('map closure returns a structured value', site)
+        t = ('map', dom, bound, body)
+    else:
+        t = dom
+    T.typed(('len', t), 'usize')
+    if ('len', t) != n:
+        st.assume(T.mk_cmp('eq', ('len', t), n))
+    return one(X.Sym(t, rty))
